@@ -665,8 +665,9 @@ def replay(c, rp):
     """re-run the deterministic parts (proofs, corpus, kernel enumeration, probes) and show the
     recorded failing inputs"""
     from .translate import gen_update_bounds
+    from .translate_c04 import gen_hard_constraint
 
-    c.prove(extra=gen_update_bounds(c))  # + update_bounds translated from the source on every run
+    c.prove(extra=gen_update_bounds(c) + gen_hard_constraint(c))  # + kernels translated from the source on every run
     for f in rp.get("failures", []) + rp.get("correspondence_disagreements", []):
         print("recorded:", f["what"])
     run_corpus(c)
@@ -694,8 +695,9 @@ def run(c):
         "violation_tolerance is left at its default (inf); the branch it guards is not modelled",
     ]
     from .translate import gen_update_bounds
+    from .translate_c04 import gen_hard_constraint
 
-    c.prove(extra=gen_update_bounds(c))  # + update_bounds translated from the source on every run
+    c.prove(extra=gen_update_bounds(c) + gen_hard_constraint(c))  # + kernels translated from the source on every run
     run_corpus(c)
     stream_update_bounds(c)
     stream_validate(c, c.n(400, 12000))
